@@ -2,11 +2,15 @@
 (***************************************************************************)
 (* Model of property C18 (purity).  TLC enumerates the call words of a     *)
 (* session over one world (two shared trajectories):                       *)
-(*   Mode "fgf"  : every word f, g, f with f, g ranging over ALL calls     *)
-(*                 (entry point x target x argument variant), and its      *)
-(*                 prefixes f and f, g;                                    *)
-(*   Mode "all3" : ALL words of length <= 3 over the entry points          *)
-(*                 (entry point x target, first variant; quick: target 1). *)
+(*   Mode "fgf"  : every word f, g, f with f ranging over ALL calls (entry  *)
+(*                 point x target x argument variant) and g over all calls *)
+(*                 (quick: over the first variant of every entry point x   *)
+(*                 target), and its prefixes f and f, g;                   *)
+(*   Mode "all3" : ALL words of length <= 3 over the entry points (entry   *)
+(*                 point x target, first variant; quick: the constructors, *)
+(*                 setters, methods and the handle reader on target 1);    *)
+(*   Mode "mini" : all words of length <= 3 over a handful of calls of     *)
+(*                 every role (used for the non-vacuity runs).             *)
 (* Every user call expands to the steps Session!Plan prescribes.  The C18  *)
 (* clauses are INVARIANTs checked on every state.  With Impure # "none"    *)
 (* one impure action of Session.tla joins Next: the harness checks that    *)
@@ -18,7 +22,7 @@ EXTENDS Session, Json
 
 CONSTANTS Tier,        \* "quick" | "thorough"
           WorldName,   \* "w2" | "w3" | "s2" | "s3"
-          Mode,        \* "fgf" | "all3" | "registry"
+          Mode,        \* "fgf" | "all3" | "mini" | "registry"
           Impure,      \* "none" | "mutate" | "cache" | "file" | "state" | "cursor"
           Gen, Seed, SHARD, NSHARDS
 
@@ -32,45 +36,58 @@ Worlds ==
    s3 |-> [dim |-> 3, T |-> <<3, 1>>, lin |-> <<TRUE, TRUE>>,  ori |-> <<FALSE, FALSE>>, heavy |-> TRUE]]
 World == Worlds[WorldName]
 
+WCalls == AllCalls(World)
+(* a handful of entry points of every role, for the non-vacuity runs *)
+MiniNames == {"time_correlation", "read_neighbors", "reopen", "gr", "gr.getresults", "NematicOrder.tensor", "NematicOrder.time_corr"}
 Alpha ==
-  IF Mode = "fgf" THEN AllCalls(World)
-  ELSE IF Mode = "all3" THEN (IF Tier = "quick" THEN {c \in BaseCalls(World) : c.s = 1} ELSE BaseCalls(World))
+  IF Mode = "fgf" THEN WCalls
+  ELSE IF Mode = "mini" THEN {c \in WCalls : Reg[c.e].n \in MiniNames /\ c.v <= 1}
+  ELSE IF Mode = "all3" THEN (IF Tier = "quick" THEN {c \in BaseCalls(World) : c.s = 1 /\ Reg[c.e].role # "fn"}
+                              ELSE BaseCalls(World))
   ELSE {}
+(* the middle call g of f, g, f: quick = first variant of every entry point, thorough = every call *)
+AlphaG == IF Mode = "fgf" /\ Tier = "quick" THEN {c \in WCalls : c.v = 0} ELSE Alpha
+NextAlpha ==
+  IF Mode = "fgf" /\ Len(word) = 2 THEN {word[1]}
+  ELSE IF Mode = "fgf" /\ Len(word) = 1 THEN AlphaG
+  ELSE Alpha
 
 CallNo(c) == c.e * 12 + c.v * 2 + c.s
 
+DoStep(c) ==
+  \/ Exec(World, c)
+  \/ Impure = "mutate" /\ \E o \in ObjsOfTarget(c.s) : MutatingCall(World, c, o)
+  \/ Impure = "cache"  /\ CachedCall(World, c)
+  \/ Impure = "file"   /\ FileFromOtherObject(World, c)
+  \/ Impure = "state"  /\ StateCorruptingCall(World, c)
+  \/ Impure = "cursor" /\ CursorStealingCall(World, c)
+
+(* the user issues call c: its plan is computed and the first planned step is executed *)
 UserCall(c) ==
   /\ pending = << >> /\ Len(word) < 3
-  /\ (Mode = "fgf" /\ Len(word) = 2) => c = word[1]
   /\ Len(word) = 0 => CallNo(c) % NSHARDS = SHARD
   /\ word' = Append(word, c)
-  /\ pending' = Plan(c, ana, cursor, World)
-  /\ UNCHANGED <<objs, ana, cursor, disk, memo, cache, hist>>
+  /\ LET p == Plan(c, ana, cursor, World) IN DoStep(Head(p)) /\ pending' = Tail(p)
 
+(* the remaining planned steps, one per transition *)
 Run ==
   /\ pending # << >>
-  /\ LET c == Head(pending) IN
-       \/ Exec(World, c)
-       \/ Impure = "mutate" /\ \E o \in ObjsOfTarget(c.s) : MutatingCall(World, c, o)
-       \/ Impure = "cache"  /\ CachedCall(World, c)
-       \/ Impure = "file"   /\ FileFromOtherObject(World, c)
-       \/ Impure = "state"  /\ StateCorruptingCall(World, c)
-       \/ Impure = "cursor" /\ CursorStealingCall(World, c)
+  /\ DoStep(Head(pending))
   /\ pending' = Tail(pending)
   /\ UNCHANGED word
 
-Next == (\E c \in Alpha : UserCall(c)) \/ Run
+Next == (\E c \in NextAlpha : UserCall(c)) \/ Run
 Spec == Init /\ [][Next]_vars
 
 TypeOK ==
   /\ \A o \in Objects : objs[o] \in Nat
-  /\ \A s \in Targets : cursor[s] \in 0..World.T[s]
-  /\ \A i \in DOMAIN hist : hist[i].c \in AllCalls(World)
+  /\ \A s \in Targets : cursor[s].nom \in 0..World.T[s] /\ cursor[s].act \in 0..World.T[s]
+  /\ \A i \in DOMAIN hist : hist[i].c \in WCalls
   /\ Len(word) <= 3 /\ Len(hist) <= 9
 
 \* ---- emission (direction A): one schedule per selected behaviour ----
-SampleFgf == IF Tier = "quick" THEN 8 ELSE 1
-SampleAll == IF Tier = "quick" THEN 40 ELSE 24
+SampleFgf == IF Tier = "quick" THEN 5 ELSE 1
+SampleAll == IF Tier = "quick" THEN 41 ELSE 23
 Selected ==
   /\ pending = << >>
   /\ IF Mode = "fgf"
